@@ -193,7 +193,7 @@ func (c02) Eval(c *Chooser, env *Env) *Outcome {
 		o.Sig = w.Hash() ^ r.K.TraceHash
 		return o
 	}
-	kind := c.Int("world.variantkind", 6) // 0,1: schedule+map order; 2: + other CPU count; 3: repeated execution; 4: repeated call on one Linter; 5: another GOMAXPROCS
+	kind := c.Int("world.variantkind", 7) // 0,1: schedule+map order; 2: + other CPU count; 3: repeated execution; 4: repeated call on one Linter; 5: another GOMAXPROCS
 	r0 := RunLint(w, nil, RunOpts{Canonical: true})
 	o.addRun(r0.K)
 	if v := runFailure("C02", r0.K); v != nil {
@@ -215,6 +215,10 @@ func (c02) Eval(c *Chooser, env *Env) *Outcome {
 		ro.Repeat = 2
 		ro.ReuseLinter = true
 		desc += ", second call on the same Linter instance"
+	case 6:
+		// another moment: the wall clock of the run differs by some minutes / hours / days
+		ro.EpochOffset = []int64{60, 7 * 60, 49 * 60, 3600 * 5, 86400 * 3, 86400*200 + 1234}[c.Int("world.epoch", 6)]
+		desc += fmt.Sprintf(", wall clock %d s later", ro.EpochOffset)
 	case 5:
 		w2.GoMaxProcs = []int{1, 2, 4, 16, 64}[c.Int("world.gmp2", 5)]
 		desc += fmt.Sprintf(", GOMAXPROCS=%d", w2.GoMaxProcs)
